@@ -1127,6 +1127,11 @@ func ruleCaptureClear(p *Program, r *Report) {
 					continue
 				}
 				n++
+				if cl.as == c.as {
+					// `taken, x.f = x.f, nil`: one statement, nothing can come between
+					r.OK(cl.as, fi.Name+" clears "+c.text+" in the critical section that captured it", "captured and cleared by one assignment under "+mu)
+					continue
+				}
 				// no release of mu between the capture and the clearing, on any path
 				sol := Solve(g, Lattice[int]{
 					Join: func(a, b int) int {
